@@ -77,6 +77,7 @@ func C12(p *load.Prog, r *oblig.Run) {
 	r.NotDecided = "that scores lie in [0,1], symmetry, monotonicity of the date parabola, maximality on identity: floating-point value universals that have no structural form."
 	r.Assumptions = []string{"guards are recognised as nil comparisons of pointer-typed operands and zero tests of len()-derived numbers"}
 	r.Rule("R12.a", "missing information scores exactly the neutral 0.5 on every guard path", 7)
+	r.Rule("R12.b", "the test that selects a neutral score looks at both operands (a one-sided test makes the score depend on the order of the operands)", 1)
 	var fns []*ssa.Function
 	for _, fn := range p.Repo {
 		if fn.Pkg != nil && fn.Pkg.Pkg.Path() == load.PkgRoot && fn.Name() == "Similarity" && fn.Synthetic == "" {
@@ -130,6 +131,7 @@ func C12(p *load.Prog, r *oblig.Run) {
 				fmt.Sprintf("%s returns %v when %s; the documented neutral score is %v", load.FuncName(fn), val, desc, want))
 		}
 	}
+	c12More(p, r)
 	// padding factor and no-parents default
 	if f := p.Method(load.PkgRoot, "IndividualNodes", "Similarity"); f != nil {
 		n := 0
@@ -168,6 +170,28 @@ func C12(p *load.Prog, r *oblig.Run) {
 					n++
 					r.Check("R12.a", "no-parents default in SurroundingSimilarity", p.Pos(st.Pos()), "parents similarity when neither side has parents", v == 0.5,
 						"0.5", fmt.Sprintf("the parents similarity defaults to %v instead of the neutral 0.5 when no parents are known", v))
+					// R12.b: the test that selects the default looks at both individuals
+					ob := r.Add("R12.b", "test selecting the no-parents default in SurroundingSimilarity", p.Pos(st.Pos()), "operands the neutral-score test depends on")
+					deps := map[*ssa.Parameter]bool{}
+					for _, pr := range b.Preds {
+						if iff, isIf := pr.Instrs[len(pr.Instrs)-1].(*ssa.If); isIf {
+							paramDeps(iff.Cond, deps, map[ssa.Value]bool{})
+						}
+					}
+					var missing []string
+					for i, prm := range f.Params {
+						if i > 1 {
+							break
+						}
+						if !deps[prm] {
+							missing = append(missing, prm.Name())
+						}
+					}
+					if len(b.Preds) == 0 || len(missing) > 0 {
+						ob.Fail("the neutral parents score is chosen by a test that does not look at " + strings.Join(missing, ", ") + ": a.SurroundingSimilarity(b) and b.SurroundingSimilarity(a) differ when only one of the two has parents (one direction scores 0.5, the other 0)")
+					} else {
+						ob.OK("depends on both individuals")
+					}
 				}
 			}
 		}
@@ -184,6 +208,7 @@ func C10(p *load.Prog, r *oblig.Run) {
 	r.NotDecided = "validity of references after merging (no pointer rewriting step exists - that absence has no structural form a sound rule could demand), that the output decodes again, that the merged individual holds the facts of both originals (C09's clauses)."
 	r.Assumptions = []string{"go/ssa control-flow graph of IndividualNodes.Merge"}
 	r.Rule("R10.a", "each comparison contributes exactly one individual to the merge result on every path", 3)
+	c10Errors(p, r)
 	fn := p.Method(load.PkgRoot, "IndividualNodes", "Merge")
 	mn := p.Func(load.PkgRoot, "MergeNodes")
 	if fn == nil || mn == nil {
@@ -646,4 +671,234 @@ func feasible(path []*ssa.BasicBlock) bool {
 		seen[k] = outcome
 	}
 	return true
+}
+
+// c10Errors (R10.b): in the matching and merging pipeline (everything of the
+// library package reachable from MergeDocumentsAndIndividuals and
+// IndividualNodes.Compare) a value that comes with an error is not used while
+// the error is thrown away - an identifier that failed to parse must not become
+// a unique identifier two people are matched on. The one existing exception is
+// listed with its reason.
+func c10Errors(p *load.Prog, r *oblig.Run) {
+	r.Rule("R10.b", "in the matching/merging pipeline a value returned together with an error is only used after the error was looked at", 5)
+	exceptions := map[string]string{
+		"gedcom.MergeNodes in gedcom.IndividualBySurroundingSimilarityMergeFunction$1": "MergeNodes fails only for nil or differently tagged operands and then returns a nil node, which the callers of a merge function read as 'not merged'",
+	}
+	errT := types.Universe.Lookup("error").Type()
+	g := cg.New(p, false)
+	var roots []cg.Target
+	for _, f := range []*ssa.Function{p.Func(load.PkgRoot, "MergeDocumentsAndIndividuals"), p.Method(load.PkgRoot, "IndividualNodes", "Compare"), p.Method(load.PkgRoot, "IndividualNodes", "Merge")} {
+		if f != nil {
+			roots = append(roots, cg.Target{Fn: f})
+		}
+	}
+	if len(roots) < 3 {
+		r.Add("R10.b", "anchors", "-", "anchor").Unknown("MergeDocumentsAndIndividuals / Compare / Merge not found")
+		return
+	}
+	// printing (String/Error methods reached through fmt) and JSON rendering are not part of the pipeline
+	reach := g.ReachFrom(roots, cg.Options{SkipEdge: func(from cg.Target, e cg.Edge) bool { return e.Kind == "fmt" || e.Kind == "json" }})
+	var fns []*ssa.Function
+	for f := range reach.Funcs {
+		if pkgPathOf(f) == load.PkgRoot && len(f.Blocks) > 0 && f.Synthetic == "" {
+			fns = append(fns, f)
+		}
+	}
+	sort.Slice(fns, func(i, j int) bool { return fns[i].String() < fns[j].String() })
+	ord := map[string]int{}
+	for _, fn := range fns {
+		for _, c := range su.Calls(fn) {
+			cc := c.Common()
+			val, ok := c.(ssa.Value)
+			if !ok {
+				continue
+			}
+			var sig *types.Signature
+			name := ""
+			if cal := cc.StaticCallee(); cal != nil {
+				if !p.IsRepoFunc(cal) {
+					continue
+				}
+				sig, name = cal.Signature, load.FuncName(cal)
+			} else if cc.IsInvoke() {
+				sig, name = cc.Signature(), "."+cc.Method.Name()
+			} else {
+				continue
+			}
+			res := sig.Results()
+			if res.Len() < 2 || !types.Identical(res.At(res.Len()-1).Type(), errT) {
+				continue
+			}
+			errUsed, valUsed := false, false
+			for _, ref := range *val.Referrers() {
+				ex, ok := ref.(*ssa.Extract)
+				if !ok || len(*ex.Referrers()) == 0 {
+					continue
+				}
+				if ex.Index == res.Len()-1 {
+					errUsed = true
+				} else {
+					valUsed = true
+				}
+			}
+			key := name + " in " + load.FuncName(fn)
+			ord[key]++
+			if ord[key] > 1 {
+				key = fmt.Sprintf("%s #%d", key, ord[key])
+			}
+			o := r.Add("R10.b", key, p.Pos(c.Pos()), "value and error of "+name)
+			switch {
+			case errUsed || !valUsed:
+				o.OK("the error is looked at (or the value is not used)")
+			case exceptions[key] != "":
+				o.OK("reviewed exception: " + exceptions[key])
+			default:
+				o.Fail("the value returned by " + name + " is used although its error is thrown away: when the call fails the zero value takes part in matching/merging (for UniqueIDNode.UUID: every malformed identifier becomes the same empty identifier and unrelated people are matched on it)")
+			}
+		}
+	}
+}
+
+// paramDeps collects the parameters a value depends on, including - for phis -
+// the branch tests between the phi's immediate dominator and the phi (control
+// dependence, over-approximated).
+func paramDeps(v ssa.Value, out map[*ssa.Parameter]bool, seen map[ssa.Value]bool) {
+	if v == nil || seen[v] {
+		return
+	}
+	seen[v] = true
+	switch x := v.(type) {
+	case *ssa.Parameter:
+		out[x] = true
+		return
+	case *ssa.Const, *ssa.Global, *ssa.Function, *ssa.Builtin, *ssa.FreeVar:
+		return
+	case *ssa.Phi:
+		for _, e := range x.Edges {
+			paramDeps(e, out, seen)
+		}
+		blk := x.Block()
+		idom := blk.Idom()
+		for _, b := range blk.Parent().Blocks {
+			iff, isIf := b.Instrs[len(b.Instrs)-1].(*ssa.If)
+			if !isIf {
+				continue
+			}
+			if idom != nil && !idom.Dominates(b) {
+				continue
+			}
+			if b == blk || su.ReachableBlocks(b)[blk] {
+				paramDeps(iff.Cond, out, seen)
+			}
+		}
+		return
+	case *ssa.UnOp:
+		if al, ok := x.X.(*ssa.Alloc); ok {
+			for _, ref := range *al.Referrers() {
+				if st, ok := ref.(*ssa.Store); ok && st.Addr == ssa.Value(al) {
+					paramDeps(st.Val, out, seen)
+				}
+			}
+			return
+		}
+	}
+	if ins, ok := v.(ssa.Instruction); ok {
+		for _, op := range ins.Operands(nil) {
+			if *op != nil {
+				paramDeps(*op, out, seen)
+			}
+		}
+	}
+}
+
+// exprShape renders how a value is computed, with string parameters abstracted
+// to "P" - two operands normalised the same way have the same shape.
+func exprShape(v ssa.Value, depth int) string {
+	if depth > 10 {
+		return "..."
+	}
+	switch x := v.(type) {
+	case *ssa.Parameter:
+		return "P"
+	case *ssa.Const:
+		return x.String()
+	case *ssa.Global:
+		return x.Name()
+	case *ssa.UnOp:
+		return "*" + exprShape(x.X, depth+1)
+	case *ssa.Call:
+		name := "?"
+		if cal := x.Call.StaticCallee(); cal != nil {
+			name = cal.String()
+		} else if x.Call.IsInvoke() {
+			name = "." + x.Call.Method.Name()
+		} else if b, ok := x.Call.Value.(*ssa.Builtin); ok {
+			name = b.Name()
+		}
+		var as []string
+		if x.Call.IsInvoke() {
+			as = append(as, exprShape(x.Call.Value, depth+1))
+		}
+		for _, a := range x.Call.Args {
+			as = append(as, exprShape(a, depth+1))
+		}
+		return name + "(" + strings.Join(as, ",") + ")"
+	case *ssa.Convert:
+		return "conv(" + exprShape(x.X, depth+1) + ")"
+	case *ssa.Slice:
+		return "slice(" + exprShape(x.X, depth+1) + ")"
+	case *ssa.BinOp:
+		return "(" + exprShape(x.X, depth+1) + x.Op.String() + exprShape(x.Y, depth+1) + ")"
+	}
+	return fmt.Sprintf("%T", v)
+}
+
+// c12More: R12.c (stable ordering of the pair scores) and R12.d (both strings
+// are normalised the same way).
+func c12More(p *load.Prog, r *oblig.Run) {
+	r.Rule("R12.c", "the greedy matching in IndividualNodes.Similarity orders equal scores deterministically (stable sort)", 1)
+	r.Rule("R12.d", "StringSimilarity normalises both strings with the same chain of operations", 1)
+	if f := p.Method(load.PkgRoot, "IndividualNodes", "Similarity"); f != nil {
+		n := 0
+		var fns []*ssa.Function
+		fns = append(fns, f)
+		fns = append(fns, f.AnonFuncs...)
+		for _, fn := range fns {
+			for _, c := range su.Calls(fn) {
+				cal := c.Common().StaticCallee()
+				if cal == nil || cal.Pkg == nil || cal.Pkg.Pkg.Path() != "sort" {
+					continue
+				}
+				n++
+				o := r.Add("R12.c", fmt.Sprintf("sort #%d in IndividualNodes.Similarity", n), p.Pos(c.Pos()), "ordering of the candidate pairs")
+				switch cal.Name() {
+				case "SliceStable", "Stable":
+					o.OK("stable: pairs with equal scores keep their matrix order, which mirrors when the operands are exchanged")
+				default:
+					o.Fail("sort." + cal.Name() + " does not keep the order of pairs with equal scores: which of several equally similar relatives is matched first changes between a.Similarity(b) and b.Similarity(a) (and between runs), and so does the score")
+				}
+			}
+		}
+		if n == 0 {
+			r.Add("R12.c", "sort in IndividualNodes.Similarity", p.Pos(f.Pos()), "ordering").Unknown("no sort call found")
+		}
+	}
+	ss := p.Func(load.PkgRoot, "StringSimilarity")
+	jw := p.Func(load.PkgRoot, "JaroWinkler")
+	if ss == nil || jw == nil {
+		r.Add("R12.d", "anchors", "-", "anchor").Unknown("StringSimilarity / JaroWinkler not found")
+		return
+	}
+	calls := su.CallsTo(ss, jw)
+	o := r.Add("R12.d", "operands handed to JaroWinkler by StringSimilarity", p.Pos(ss.Pos()), "normalisation of the two strings")
+	if len(calls) != 1 || len(calls[0].Call.Args) < 2 {
+		o.Unknown("StringSimilarity no longer calls JaroWinkler once")
+		return
+	}
+	a, b := exprShape(calls[0].Call.Args[0], 0), exprShape(calls[0].Call.Args[1], 0)
+	if a == b {
+		o.OK("both operands: " + a)
+	} else {
+		o.Fail("the two strings are prepared differently (" + a + " vs " + b + "): StringSimilarity(x, y) and StringSimilarity(y, x) can differ and a string need not be maximally similar to itself")
+	}
 }
